@@ -65,7 +65,25 @@ class Shim(types.ModuleType):
         return getattr(self.__dict__["_real"], name)
 
 
+import time as _real_time  # noqa: E402
+
+
+def _sim_now():
+    sim = sched.cur()
+    return (sim.now if sim is not None else 0) / 1e6
+
+
+def _sim_sleep(seconds):
+    sim = sched.cur()
+    if sim is not None and sim.me() is not None:
+        sim.sleep(int(seconds * 1e6))
+
+
 SHIMS = {
+    # every clock the code could read is the simulated one
+    "time": Shim(_real_time, time=lambda: 1.6e9 + _sim_now(),
+                 monotonic=_sim_now, perf_counter=_sim_now,
+                 sleep=_sim_sleep),
     "queue": Shim(_real_queue_mod, Queue=SimQueue),
     "threading": Shim(_real_threading, Lock=SimLock, Thread=SimThread),
     "socket": Shim(_real_socket, socket=wire.SimSocket),
@@ -184,6 +202,20 @@ def gen_config(ch):
         cfg["callers"] = []
         nb = 1 + ch.weighted([3, 2], "b_ncallers")
         cfg["bops"] = []
+        cfg["stepmix"] = bool(nb == 2 and ch.chance(1, 3, "stepmix"))
+        if cfg["stepmix"]:
+            # one caller single-steps while the other reads: stop replies
+            # arrive while commands are outstanding.  All replies have the
+            # shape of a register dump, so whichever waiting command takes
+            # which reply (not part of the statement) nothing fails to parse.
+            stops = ["S05", "S02", "T0500:44332211;", "T05thread:01;"]
+            cfg["bops"].append([("step", ch.pick(stops, "sm_stop"))
+                                for _ in range(1 + ch.draw(3, "sm_nsteps"))])
+            cfg["bops"].append([ch.pick([("read_mem", 0x1000, 12),
+                                         ("get_registers",),
+                                         ("read_mem", 0x23, 12)], "sm_op")
+                                for _ in range(1 + ch.draw(4, "sm_nops"))])
+            nb = 0
         for c in range(nb):
             ops = []
             for _ in range(1 + ch.draw(4, "b_nops")):
@@ -207,7 +239,8 @@ def gen_config(ch):
                 elif k in ("set_breakpoint", "clear_breakpoint"):
                     ops.append((k, addr))
                 elif k == "step":
-                    ops.append((k, ch.pick(["S05", "S02", "S0b", "T0a00:ddccbbaa;",
+                    ops.append((k, ch.pick(["S05", "S02", "S0b", "T0a00:44332211;",
+                                            "T0505:01020304;",
                                             "T0500:44332211;",
                                             "T05thread:01;"], "b_stop")))
                 else:
